@@ -321,6 +321,8 @@ def _get_eligible(hier, sub):
 
 
 def _validate_parentage(id, parents, hier):
+    if not parents:
+        raise HierarchyError(f'{id} has no parents')
     ancestors = set()
     for parent in parents:
         ancestors.update(_ancestors(parent, hier))
